@@ -121,6 +121,8 @@ type Link struct {
 	sendIdx   int
 	blackhole bool
 	blockSend bool
+	failSends int
+	failErr   error
 	sendCost  time.Duration
 	// jitter: PRNG-chosen durations of Send and Recv calls (see SetJitter)
 	jitRng *rand.Rand
@@ -181,6 +183,14 @@ func (l *Link) SetBlackhole(on, flush bool) {
 	if flush {
 		l.q = nil
 	}
+	l.mu.Unlock()
+}
+
+// FailNextSends makes the next n Send calls fail with err (a transient write
+// error of the transport: the packet is not sent, the link keeps working).
+func (l *Link) FailNextSends(n int, err error) {
+	l.mu.Lock()
+	l.failSends, l.failErr = n, err
 	l.mu.Unlock()
 }
 
@@ -254,6 +264,12 @@ func (l *Link) logf(kind string, idx int, p Pkt, dup int) {
 
 // Send hands a packet to the link. It implements gbn's sendBytesFunc.
 func (l *Link) Send(ctx context.Context, b []byte) error {
+	// Like the real transports (ClientConn.send, ServerConn.sendToStream
+	// and the gRPC streams below them), the link refuses a write whose
+	// context is already done.
+	if err := ctx.Err(); err != nil {
+		return err
+	}
 	l.mu.Lock()
 	if l.closed {
 		l.mu.Unlock()
@@ -263,6 +279,13 @@ func (l *Link) Send(ctx context.Context, b []byte) error {
 		l.mu.Unlock()
 		<-ctx.Done()
 		return ctx.Err()
+	}
+	if l.failSends > 0 {
+		l.failSends--
+		err := l.failErr
+		l.logf("write-error", l.sendIdx, Parse(b), 0)
+		l.mu.Unlock()
+		return err
 	}
 	idx := l.sendIdx
 	l.sendIdx++
